@@ -48,7 +48,7 @@ def _pair(draw):
     w = draw(gens.witness_s(pool))
     cls = draw(st.sampled_from(["identical", "sublist", "weakened", "farkas", "scaled", "separated", "unrelated",
                                 "unbounded", "infeasible-left", "infeasible-right", "empty-right", "empty-left",
-                                "equal-bounds", "both-infeasible", "separated-large-constant", "farkas-chain", "lp-hard"]))
+                                "equal-bounds", "both-infeasible", "separated-large-constant", "separated-large-constant", "farkas-chain", "lp-hard"]))
     L = draw(gens.termlist_s(pool, w, 1, 5))
     if cls == "lp-hard":
         # a mined, satisfiable, badly scaled system on which the solver's first answer is not optimal, against one of its rows,
@@ -125,7 +125,8 @@ def _pair(draw):
         r = draw(st.sampled_from(R))
         gap = draw(st.sampled_from([0.5, 0.25, 0.01, 0.05]))
         big = draw(st.sampled_from([2e4, 1e5, 1e6, 5e5]))
-        L = [[{k: -v for k, v in r[0].items()}, -(r[1] + gap)], [dict(r[0]), r[1] + gap + 1.0],
+        width = draw(st.sampled_from([1.0, 0.0, 0.01]))     # how far the left side extends beyond the violated bound
+        L = [[{k: -v for k, v in r[0].items()}, -(r[1] + gap)], [dict(r[0]), r[1] + gap + width],
              [{draw(st.sampled_from(pool)): draw(st.sampled_from([1.0, -1.0]))}, big]]
         variant = draw(st.integers(0, 2))
         if variant == 1:
